@@ -204,6 +204,10 @@ def run_one(spec):
         allpids = set(pids) | {p.pid for p in pool._pool}
         res['results'] = [outcome(r) for r in rs]
         res['expected'] = [['ok', spec['sleep'] if spec.get('sleep') else 2 * i] for i in range(spec.get('applies', 4))]
+        if spec.get('overrun'):
+            # the jobs outlive the pool's hard time limit during the drain: they fail with TimeLimitExceeded
+            res['results'] = [x[:2] for x in res['results']]
+            res['expected'] = [['exc', 'TimeLimitExceeded'] for _ in range(spec.get('applies', 4))]
         if mr is not None:
             res['map'] = outcome(mr)
             res['map_expected'] = ['ok', [2 * i for i in range(spec['map'])]]
